@@ -314,6 +314,28 @@ def run(prog, chk):
             else:
                 chk.fail("R13.2", fnm, "helper-does-not-quote", "%s no longer calls escape::quote*/force_quote" % fnm)
 
+    # ---- R13.6 the xtrace rendering of assignment literals -------------------------------------------------------------
+    chk.rule("R13.6", "ShellValueLiteral::fmt_for_tracing writes every piece of the literal (scalar, each key, each element) through "
+                      "fmt_scalar_for_tracing; nothing that derives from the literal is formatted raw")
+    LIT = "brush_core::variables::ShellValueLiteral::fmt_for_tracing"
+    lb = prog.body(LIT)
+    if chk.anchor("R13.6", LIT, lb):
+        d6 = defs_of(lb)
+        nq = len([1 for _, t in lb.calls() if (t.best_callee() or "").endswith("ShellValueLiteral::fmt_scalar_for_tracing")])
+        chk.floor("R13.6", "fmt_scalar_for_tracing call sites (scalar and array arms)", nq, 2)
+        raw = []
+        for bb, t in lb.calls():
+            if (t.callee or "").endswith(("fmt::rt::Argument::new_display", "fmt::rt::Argument::new_debug")):
+                if any(f.kind == 'arg' and f.local == 1 for f in flow_back(lb, d6, t.args[0], all_args=True)):
+                    raw.append(t)
+        if raw:
+            lit = ((raw[0].snip or "").split('"')[1] if '"' in (raw[0].snip or "") else "")[:40]
+            chk.fail("R13.6", LIT, "trace-literal-piece-raw",
+                     "the `set -x` rendering of an assignment literal formats a piece of the literal raw (format %r at %s): a key or element containing `$`, blanks, `;` "
+                     "or quotes makes the traced line re-read to different keys/values" % (lit, lb.loc(raw[0].line)))
+        else:
+            chk.ok("R13.6", "trace-literal-quoted", "%d pieces written through fmt_scalar_for_tracing, none raw" % nq, function=LIT)
+
     # ---- R13.5 declare's attribute filters (shared contradiction rule from C06) -----------------------------------------
     from rules import c06
     chk.rule("R13.5", "the attribute filters of `declare -p -A` / `-a` treat declared-but-unassigned arrays like assigned ones (same answer as "
